@@ -1,40 +1,46 @@
 #!/bin/bash
-# usage: seedeval.sh <seed-dir>   (contains patch.diff, demo_test.go, meta.json)
-# 1. confirms the seed in a scratch worktree of /repo (suite passes with it; demo fails with it and passes without)
-# 2. applies it to /repo, runs every check's quick tier, undoes it. Prints one JSON line.
+# usage: seedeval.sh <seed-dir> [--on-repo]   (seed-dir contains patch.diff, demo_test.go, meta.json)
+# 1. confirms the seed in a scratch worktree of /repo: the demo passes without the change, the change applies and
+#    builds, the demo fails with it, the unedited suite passes with it;
+# 2. runs every check's quick tier on the changed tree (default: the scratch worktree through --repo; with --on-repo the
+#    patch is applied to /repo itself, the checks run there and the patch is undone straight afterwards).
+# Prints one JSON line; the rule-level report goes to <logdir>/<name>.checks.log. Removes the worktree on exit.
 set -u
 export GOFLAGS=-mod=mod GOPROXY=off GOSUMDB=off GOTOOLCHAIN=local GOWORK=off
-sd=$(realpath "$1")
+sd=$(realpath "$1"); onrepo=${2:-}
 name=$(basename "$(dirname "$sd")")-$(basename "$sd")
+logdir=${SEEDEVAL_LOGDIR:-/tmp/seedeval-logs}; mkdir -p "$logdir"
 wt=/tmp/sw-$name
-demo_dir=$(jq -r .demo_dir "$sd/meta.json"); demo_cmd=$(jq -r .demo_cmd "$sd/meta.json")
-[ "$demo_dir" = "null" ] && demo_dir=.
+demo_dir=$(jq -r '.demo_dir // "."' "$sd/meta.json"); demo_cmd=$(jq -r .demo_cmd "$sd/meta.json")
 git -C /repo worktree remove --force "$wt" >/dev/null 2>&1
 git -C /repo worktree add --detach "$wt" HEAD -q || { echo "{\"seed\":\"$name\",\"error\":\"worktree\"}"; exit 1; }
-trap 'git -C /repo worktree remove --force "$wt" >/dev/null 2>&1' EXIT
+trap 'git -C /repo worktree remove --force "$wt" >/dev/null 2>&1; rm -rf "$wt"' EXIT
 cp "$sd/demo_test.go" "$wt/$demo_dir/zz_seed_demo_test.go"
-demo_without=fail; (cd "$wt" && timeout 600 bash -c "$demo_cmd" >/tmp/sw-$name.without.log 2>&1) && demo_without=pass
+demo_without=fail; (cd "$wt" && timeout 900 bash -c "$demo_cmd" >"$logdir/$name.without.log" 2>&1) && demo_without=pass
 applies=yes; (cd "$wt" && git apply "$sd/patch.diff") || applies=no
-suite=skip; demo_with=skip; builds=skip
+suite=skip; demo_with=skip; builds=skip; caught=""; nviol=0
 if [ $applies = yes ]; then
   builds=fail; (cd "$wt" && go build ./... >/dev/null 2>&1) && builds=pass
-  demo_with=fail; (cd "$wt" && timeout 600 bash -c "$demo_cmd" >/tmp/sw-$name.with.log 2>&1) && demo_with=pass
+  demo_with=fail; (cd "$wt" && timeout 900 bash -c "$demo_cmd" >"$logdir/$name.with.log" 2>&1) && demo_with=pass
   rm -f "$wt/$demo_dir/zz_seed_demo_test.go"
   suite=fail
   for try in 1 2 3; do  # the suite has wall-clock performance tests that flake under load
-    (cd "$wt" && timeout 1200 go test -vet=off -count=1 ./... >/tmp/sw-$name.suite.log 2>&1) && { suite=pass; break; }
-    grep -q "took too long" /tmp/sw-$name.suite.log || break
+    (cd "$wt" && timeout 1200 go test -vet=off -count=1 ./... >"$logdir/$name.suite.log" 2>&1) && { suite=pass; break; }
+    grep -q "took too long" "$logdir/$name.suite.log" || break
   done
-fi
-caught=""
-if [ $applies = yes ]; then
-  if git -C /repo apply "$sd/patch.diff"; then
-    out=$(/verif/bin/gmcheck all --tier quick --no-evidence 2>&1 | grep -v '^   ')
-    git -C /repo checkout -- . ; git -C /repo clean -fdq
-    caught=$(echo "$out" | grep '^VIOLATION' | sed 's/.*property=\([A-Z0-9]*\).*/\1/' | sort -u | tr '\n' ' ')
-    echo "$out" | grep -e '^VIOLATED' -e '^UNDECIDED' | cut -c1-300 > /tmp/sw-$name.checks.log
+  if [ "$onrepo" = "--on-repo" ]; then
+    if git -C /repo apply "$sd/patch.diff"; then
+      out=$(/verif/bin/gmcheck all --tier quick --no-evidence 2>&1 | grep -v '^   ')
+      git -C /repo checkout -- . ; git -C /repo clean -fdq
+    else
+      out="ERROR patch does not apply to /repo"
+    fi
   else
-    applies=no-on-repo
+    out=$(/verif/bin/gmcheck all --tier quick --no-evidence --repo "$wt" 2>&1 | grep -v '^   ')
   fi
+  caught=$(echo "$out" | grep '^VIOLATION' | sed 's/.*property=\([A-Z0-9]*\).*/\1/' | sort -u | tr '\n' ' ')
+  echo "$out" | grep -e '^VIOLATED' -e '^UNDECIDED' -e '^ERROR' | cut -c1-400 > "$logdir/$name.checks.log"
+  nviol=$(wc -l < "$logdir/$name.checks.log")
 fi
-echo "{\"seed\":\"$name\",\"applies\":\"$applies\",\"builds\":\"$builds\",\"suite\":\"$suite\",\"demo_without\":\"$demo_without\",\"demo_with\":\"$demo_with\",\"caught_by\":\"$caught\"}"
+res="{\"seed\":\"$name\",\"applies\":\"$applies\",\"builds\":\"$builds\",\"suite\":\"$suite\",\"demo_without\":\"$demo_without\",\"demo_with\":\"$demo_with\",\"caught_by\":\"${caught% }\",\"reports\":$nviol}"
+echo "$res" | tee "$logdir/$name.json"
